@@ -489,6 +489,8 @@ class Evaluator:
                 if isinstance(v, int):
                     return v
             raise AnalysisError('unbound name ' + e.id)
+        if isinstance(e, ast.Attribute) and e.attr == '_data':
+            return ArrRef(self.array_key(e))
         if isinstance(e, ast.Attribute):
             # class / module constants
             try:
@@ -542,6 +544,28 @@ class Evaluator:
                            for i in range(n)]).trimmed()
         if isinstance(e, ast.Call):
             return self.call(e, env, path)
+        if isinstance(e, (ast.ListComp, ast.GeneratorExp)) and \
+                len(e.generators) == 1 and not e.generators[0].ifs:
+            g = e.generators[0]
+            seq = self.ev(g.iter, env, path)
+            if isinstance(seq, tuple) and seq and seq[0] == 'range':
+                vals = []
+                for a in seq[1]:
+                    av = self.to_aff(a)
+                    if not av.is_const():
+                        raise AnalysisError('comprehension over a symbolic '
+                                            'range')
+                    vals.append(av.const)
+                seq = list(range(*vals))
+            if isinstance(seq, (list, tuple)) and len(seq) <= 64:
+                out = []
+                for item in seq:
+                    e2 = dict(env)
+                    self.assign(g.target, item, e2, path, e)
+                    out.append(self.ev(e.elt, e2, path))
+                return out
+            raise AnalysisError('comprehension outside the model: ' +
+                                ast.unparse(e)[:60])
         if isinstance(e, ast.BoolOp):
             vals = [self.ev(v, env, path) for v in e.values]
             if all(isinstance(v, bool) for v in vals):
@@ -685,6 +709,12 @@ class Evaluator:
             self.note_access(arr, idx, e, path, 'load')
             return self.load(arr, idx, path)
         v = self.ev(base, env, path)
+        if isinstance(v, ArrRef):
+            if isinstance(e.slice, ast.Slice):
+                raise AnalysisError('slice of a region array')
+            idx = self.to_aff(self.ev(e.slice, env, path))
+            self.note_access(v.key, idx, e, path, 'load')
+            return self.load(v.key, idx, path)
         if isinstance(v, SymLine):
             if isinstance(e.slice, ast.Slice):
                 lo = self.to_aff(self.ev(e.slice.lower, env, path)) \
@@ -860,6 +890,22 @@ class Evaluator:
                     return v
             if fn.id == 'str' and e.args:
                 return self.ev(e.args[0], env, path)
+            if fn.id in ('tuple', 'list') and len(e.args) == 1:
+                v = self.ev(e.args[0], env, path)
+                if isinstance(v, (list, tuple)):
+                    return tuple(v) if fn.id == 'tuple' else list(v)
+            if fn.id == 'enumerate' and len(e.args) == 1:
+                v = self.ev(e.args[0], env, path)
+                if isinstance(v, (list, tuple)) and not (
+                        v and v[0] == 'range'):
+                    return [(i, x) for i, x in enumerate(v)]
+            if fn.id == 'divmod' and len(e.args) == 2:
+                q = ast.BinOp(left=e.args[0], op=ast.FloorDiv(),
+                              right=e.args[1])
+                r = ast.BinOp(left=e.args[0], op=ast.Mod(), right=e.args[1])
+                for x in (q, r):
+                    ast.copy_location(x, e)
+                return (self.binop(q, env, path), self.binop(r, env, path))
             if fn.id == 'range':
                 return ('range', [self.ev(a, env, path) for a in e.args])
             if fn.id in ('min', 'max') and e.args:
@@ -1058,6 +1104,17 @@ class Evaluator:
                     nm = t.comparators[0].id
                     env[nm] = BV(env[nm].cells[:k] or [ZERO])
             return [(path, env, False)]
+        if isinstance(st, (ast.Return, ast.Assign)) and \
+                isinstance(st.value, ast.IfExp):
+            # a conditional value forks the path like an if statement
+            def mk(v):
+                n = ast.Return(value=v) if isinstance(st, ast.Return) else \
+                    ast.Assign(targets=st.targets, value=v)
+                return ast.copy_location(n, st)
+            iff = ast.If(test=st.value.test, body=[mk(st.value.body)],
+                         orelse=[mk(st.value.orelse)])
+            ast.copy_location(iff, st)
+            return self.stmt(iff, env, path)
         if isinstance(st, ast.Return):
             path.ret = self.ev(st.value, env, path) if st.value is not None \
                 else NONE
@@ -1086,20 +1143,23 @@ class Evaluator:
             for t in st.targets:
                 self.assign(t, v, env, path, st)
             return [(path, env, False)]
-        if isinstance(st, ast.For) and not st.orelse and \
-                isinstance(st.iter, ast.Call) and \
-                isinstance(st.iter.func, ast.Name) and \
-                st.iter.func.id == 'range' and \
-                isinstance(st.target, ast.Name):
+        if isinstance(st, ast.For) and not st.orelse:
             # constant-trip loop: unroll
-            args = []
-            for a in st.iter.args:
-                v = self.to_aff(self.ev(a, env, path))
-                if not v.is_const():
-                    raise AnalysisError('loop over a symbolic range: ' +
-                                        ast.unparse(st.iter)[:50])
-                args.append(v.const)
-            trips = list(range(*args))
+            seq = self.ev(st.iter, env, path)
+            if isinstance(seq, tuple) and seq and seq[0] == 'range':
+                args = []
+                for a in seq[1]:
+                    v = self.to_aff(a)
+                    if not v.is_const():
+                        raise AnalysisError('loop over a symbolic range: ' +
+                                            ast.unparse(st.iter)[:50])
+                    args.append(v.const)
+                trips = list(range(*args))
+            elif isinstance(seq, (list, tuple)):
+                trips = list(seq)
+            else:
+                raise AnalysisError('statement outside the model: ' +
+                                    ast.unparse(st)[:60])
             if len(trips) > 64:
                 raise AnalysisError('loop too long to unroll: ' +
                                     ast.unparse(st.iter)[:50])
@@ -1111,7 +1171,8 @@ class Evaluator:
                     nxt = []
                     for (p, en, done) in states:
                         en = dict(en)
-                        en[st.target.id] = k
+                        self.cur = p
+                        self.assign(st.target, k, en, p, st)
                         for (p2, e2, d2) in self.block(st.body, en, p):
                             if d2 and p2.flow == 'continue':
                                 p2.flow = None
@@ -1340,6 +1401,13 @@ class Evaluator:
             return
         if isinstance(t, ast.Subscript):
             base = self.ev(t.value, env, path)
+            if isinstance(base, ArrRef):
+                if isinstance(t.slice, ast.Slice):
+                    raise AnalysisError('slice store into a region array')
+                idx = self.to_aff(self.ev(t.slice, env, path))
+                self.note_access(base.key, idx, t, path, 'store')
+                path.stores.append((base.key, idx, self.to_bv(v), node))
+                return
             if isinstance(base, SymArray):
                 idx = self.to_aff(self.ev(t.slice, env, path))
                 self.note_access(base.name, idx, t, path, 'store')
@@ -1352,6 +1420,13 @@ class Evaluator:
 class ObjRef:
     def __init__(self, cls):
         self.cls = cls
+
+
+class ArrRef:
+    """a local that aliases a region array (data = self._data)"""
+
+    def __init__(self, key):
+        self.key = key
 
 
 class ByteList:
